@@ -21,13 +21,13 @@ NA = {
 
 # property -> (technique, level text, level note, design ref)
 T = {
- "C01": ("abstract interpretation of riscv.init and every effects closure over go/ssa (known-bits + bit-dependence, decision-replay path exploration), template rules F0-F11, exact check of immediate/register-field decoding against the ISA formats",
-         "structural necessary conditions of correct lifting decided for all 160 table entries on all abstract paths: closures do not panic, every decoded operand bit influences the effects, access widths match metadata, operand roles (rs1 address / rs2 value / rd target / CSR bits), x0 guarded, XLEN widths, sign extension of immediates and of W results, operand order of non-commutative operations, every RV64 W-form entry agrees with its RV32 twin up to operators whose low bits depend only on low bits (F11); immediate formats I/S/B/U/J and register fields are verified bit-exactly. ALU semantics (which operator/gadget, comparison polarity, jalr bit 0, mulhsu, CSR numbering) are NOT decided",
+ "C01": ("abstract interpretation of riscv.init and every effects closure over go/ssa (known-bits + bit-dependence, decision-replay path exploration), template rules F0-F11, exact check of immediate/register-field decoding against the ISA formats, canonical-form comparison of every entry's effect terms with a reference semantics table (C01.sem)",
+         "structural necessary conditions of correct lifting decided for all 160 table entries on all abstract paths: closures do not panic, every decoded operand bit influences the effects, access widths match metadata, operand roles (rs1 address / rs2 value / rd target / CSR bits), x0 guarded, XLEN widths, sign extension of immediates and of W results, operand order of non-commutative operations, every RV64 W-form entry agrees with its RV32 twin up to operators whose low bits depend only on low bits (F11); immediate formats I/S/B/U/J and register fields are verified bit-exactly; the lifted effect terms of all 160 entries equal, in a canonical form, the instruction definitions of the ISA manual written in the same vocabulary (operator, operand roles, comparison polarity, targets, widths, sign extension, jalr bit 0, mulh*/AMO selection). The meaning of the exprtools helpers themselves (C11) and CSR numbering are NOT decided; a helper replaced by its expansion would be reported although behaviour is unchanged",
          "trusts go/ssa, the abstract interpreter's transfer functions and that pkg/expr constructors mean what they document", "§4 C01"),
  "C02": ("SSA constant evaluation of the opcode tables and of instructionSet for the 8 configurations + exact cube algebra (sharp) against a reference encoding table; dominance rules for length check / 4-byte read",
          "proof by exhaustive symbolic set algebra: for each of the 8 parser configurations the accept set of the implementation equals the reference accept set, patterns are pairwise disjoint and names agree, for all 2^32 words; short input rejected before matching and only 4 bytes read",
          "trusted base: /verif/spec/rv_encodings.json (written from the ISA manual), the cube algebra, the SSA evaluator, and that opcode.Matcher returns the pattern whose masked bytes equal the input (C19 assumed)", "§4 C02"),
- "C03": ("dominance / reachability / pairing rules on Emulator.Step, eval closures, recordOutput and main.runIU over go/ssa; unchecked-type-assertion rule for .(expr.Const)",
+ "C03": ("deep-site rules over Emulator.Step and the same-package helpers it reaches (call chains, parameter-to-argument translation, interprocedural data dependence): read-after-apply reachability per function, must-pass-through of evaluation, lookup/miss-edge rules, report pairing; concrete interprocedural CFG walk for the fall-through polarity; unchecked-type-assertion rule for .(expr.Const)",
          "evaluation discipline of the emulator: all effects evaluated before any is applied, nothing reads state while applying, fall-through exactly when no applied effect wrote the IP, lookup failure returns an error first, every read/write reported with the same key/address/value, memory layering Overlay(Bytes, Sparse), every .(expr.Const) in the emulator is applied to a constant-folded value or checked. Numeric agreement with a reference machine and absence of panics are NOT decided",
          "trusts go/ssa; C14-C16, C18 cover the state containers", "§4 C03"),
  "C04": ("who-may-call + miss-edge dominance + must-pass-through (memoising store) rules; set-algebra truth tables",
@@ -39,37 +39,37 @@ T = {
  "C06": ("guard (control-dependence) rule on all 11 addDep call sites; who-may-call",
          "necessary condition for 'no spurious edge': every edge insertion is dominated by a witness of conflict (table hit under a key of the instruction, special/memory-order flags, jump targets); minimality of the relation is not decided",
          "trusts go/ssa", "§4 C06"),
- "C07": ("decision tables by CFG walk over all weak orderings (validateArrayIndex 13, checkMove 150, move 3), only-writers / who-may-call, symbolic loop-range coverage and slot pairing in moveFwd/moveBack",
+ "C07": ("decision tables by (interprocedural) concrete CFG walk over all weak orderings (validateArrayIndex 13, checkFromToIndex 16, checkMove 150, move 3), only-writers / who-may-call, symbolic loop-range coverage and slot pairing in moveFwd/moveBack",
          "admission logic exact over orderings; rotation gated by the nil check; bookkeeping fields written only by owners; every slot of [lo,hi] rewritten once with index and chained address; lookups use the address-ordered copy. Invariants over arbitrary histories follow only as far as these local conditions imply them",
          "trusts go/ssa; LowerBound/UpperBound treated as opaque symbols in checkMove", "§4 C07"),
- "C08": ("error propagation, in-place-compaction idiom, guard polarity rules, pipeline dataflow chain",
+ "C08": ("error propagation, concrete interprocedural CFG walk of deps.jumps over 19 combinations (store kind, folds to a constant, equals End()), guard/dependence rules with predicate-helper summaries, memmove-direction rule, pipeline dataflow chain",
          "jump targets = folded Possibilities of IP writes, dropped only when constant == ins.End(); splitting stages chained and cutting under the right comparisons; errors propagate. Where exactly splits fall for all inputs is not decided",
          "trusts go/ssa", "§4 C08"),
- "C09": ("traversal rules over the sealed IR (origin dataflow, rebuild homomorphism), exact guard sets for the all-constant edges, operator table agreement",
+ "C09": ("traversal rules over the sealed IR (origin dataflow, rebuild homomorphism, case bodies followed into extracted helpers), concrete interprocedural CFG walk of the Binary/Less cases over all combinations of constant operands, changed flags and comparison outcome, operator table agreement",
          "constFold folds every child, rebuilds nodes with their own operator/key/width, evaluates exactly when both operands are constants (no further condition), selects the right branch of a constant comparison and re-widths it, passes operands in order, ends with PurgeWidthGadgets; value preservation itself needs C10/C11 and is not decided",
          "trusts go/ssa", "§4 C09"),
- "C12": ("decision table of dropUselessWidthGadget by CFG walk over the 13 weak orderings of (context, gadget, argument) widths against gadget >= min(arg, w); setWidth walked per node type; context-width agreement of every prune call site; gadget shape agreement",
+ "C12": ("decision table of dropUselessWidthGadget by CFG walk over the 13 weak orderings of (context, gadget, argument) widths against gadget >= min(arg, w); setWidth walked per node type; purgeWidthGadgetsKeepWidth walked over gadget chains; WidthGadgetArg walked over the 16 shape combinations; context-width agreement of every prune call site",
          "the width-gadget decision function is decided exhaustively; pruning contexts are the consuming widths; addresses are never pruned in a narrowing context; setWidth re-makes only Const and narrowed RegLoad",
          "trusts go/ssa and the documented width semantics of pkg/expr", "§4 C12"),
  "C13": ("traversal rules on Possibilities (origins of returned alternatives, no sub-slicing, SetWidth to the node width), call-graph reachability",
          "every child is expanded, both branches of a conditional are returned at the conditional's width, no conditional constructor is reachable; value equality with some alternative follows by induction from these",
          "trusts go/ssa; SetWidth value preservation is C12", "§4 C13"),
- "C14": ("ghost-interval refinement of cutExpr values (linear forms + branch facts, path alternatives through phis), guard rules on Missing/wholeInterval, byte-slice ownership",
+ "C14": ("ghost-interval refinement of cutExpr values (linear forms + branch facts, path alternatives through phis), guard rules on Missing, concrete CFG walk of wholeInterval on 16 interval lists, byte-slice ownership",
          "every piece put into / taken out of the interval tree covers exactly the address interval it stands for, shifts are (piece.low-addr)*8, cutBegin/cutEnd/expr keep/shift what they document, gaps are emitted under their comparisons; full history semantics (tree library, overlapping sequences) is not decided",
          "trusts go/ssa and the interval tree library (Overlaps sorted, Add/Put/Remove)", "§4 C14"),
  "C15": ("byte-slice ownership analysis with parameter and struct-result summaries, set-algebra truth tables, compaction idiom, memmove-direction rule for in-place shifts, guard rules",
          "no borrowed byte slice is written or retained in mutable blocks, Missing/Blocks are the documented set terms, overlapping blocks rejected, reads return copies under a covering block, the insertion slot is opened by an overlap-safe shift before it is filled",
          "trusts go/ssa; field-based alias abstraction", "§4 C15"),
- "C16": ("set-algebra truth tables (incl. the two range sets inside Load), only-methods-on-base rule, shift/OR/sort patterns",
+ "C16": ("set-algebra truth tables (incl. the two range sets inside Load, found through call chains), only-methods-on-base rule (also through helper parameters), concrete walk of the read-failure scenarios, shift/OR/sort patterns",
          "Missing/Blocks and the ranges read per layer are the documented set terms, the base is never stored to, pieces are read with their interval, sorted, shifted by (Begin-addr) and OR-ed at w, a failed base read fails the read",
          "trusts go/ssa", "§4 C16"),
  "C18": ("SSA pattern + dominance rules on RegMap.Store/Load and State.Apply",
          "stored/loaded register values pass through SetWidth with the method's own width, miss returns absent, a refused memory effect is refused before any state change, effect fields are forwarded from the same node",
          "trusts go/ssa and that exprtransform.SetWidth implements zero-extension/truncation (C12)", "§4 C18"),
- "C20": ("decision tables by CFG walk over the ELF type enum (5 values) and the 16 section-attribute combinations; provenance / guard rules in Memory() and MachineCode(); error propagation",
-         "accepts exactly EXEC and DYN, keeps exactly non-empty address-bearing executable PROGBITS, segments become (Vaddr, file bytes + zero fill to Memsz), sections (Addr, Data), overlap/emptiness rejected, address lookup guarded; debug/elf itself is trusted",
+ "C20": ("decision tables by CFG walk over the ELF type enum (5 values) and the 16 section-attribute combinations; deep-site provenance / guard rules for the blocks built by Memory() and MachineCode(); concrete interprocedural walks of newMemory (10 block lists), Block.Address (7 addresses) and Memory.Address (28 addresses over three blocks, sort.Search followed) on a concrete block list; error propagation",
+         "accepts exactly EXEC and DYN, keeps exactly non-empty address-bearing executable PROGBITS, segments become (Vaddr, file bytes + zero fill to Memsz), sections (Addr, Data), overlap (and only overlap) rejected, lookups return the bytes from the address to the end of the containing block or nothing; debug/elf itself is trusted",
          "trusts go/ssa and debug/elf", "§4 C20"),
- "C21": ("loop-variable and dataflow rules on parser.Parse/parseIns/newInstruction, error propagation",
+ "C21": ("deep-site loop-variable and dataflow rules from parser.Parse to the platform decoder and newInstruction (through whatever helpers), error propagation",
          "the walk starts at Begin(), advances by Len() of the parsed instruction until End(), same addr/bytes parsed and stored, Bytes = bytes[:ByteLen], Effects = ConstFold of the lifted effects only, decode/validate errors abort",
          "trusts go/ssa", "§4 C21"),
  "C22": ("command-table discipline (argument count/type agreement with the parsers), nil-function-field rule, user-input taint for constant indexing, line-index taint with raw-index parameter summaries, validator summaries and lower-bound (non-negative) reasoning, possibly-nil pointer fields, error-continues-loop rule",
@@ -78,8 +78,8 @@ T = {
  "C23": ("post-dominance of re-rendering over successful moves, derived-state must-pass rule (fields computed from block order are recomputed on every path from the success edge of a block move), rendering loop patterns",
          "after a successful move the listing is re-derived, after a rejected one it is untouched; rendering details of lines are not decided",
          "trusts go/ssa", "§4 C23"),
- "C24": ("line-index taint in Print/Format methods (granted height) with upper and lower bounds, loop-budget rule in distributeLines, error-before-print dominance, sibling agreement lines()/Print of the register view",
-         "indices bounded by slice length and not negative, the budget decreases with every line handed out, too few lines is an error before printing, the register view prints what it counts; exact line counts for all states are not decided",
+ "C24": ("line-index taint in Print/Format methods (granted height) with upper and lower bounds, concrete interprocedural walk of the two Print methods with window arithmetic over every (lines<=7, cursor, granted height) state, loop-budget rule in distributeLines, error-before-print dominance, sibling agreement lines()/Print of the register view",
+         "indices bounded by slice length and not negative, the listing and memory views never index outside their lines nor print more lines than granted in any walked state, the budget decreases with every line handed out, too few lines is an error before printing, the register view prints what it counts; exact line counts for all states are not decided",
          "trusts go/ssa", "§4 C24"),
  "C25": ("abstract interpretation of instruction.String() per table entry: dependence set of the text (exact-copy bit tracking and structural text signatures decide when path conditions matter) vs dependence set of the effects template",
          "every operand bit that influences the lifted behaviour influences the text, and the text starts with the mnemonic, for all 160 entries; 15 listed known findings (shift amounts, CSR zimm not rendered)",
@@ -93,10 +93,10 @@ T = {
  "C28": ("traversal rules over the sealed IR: exhaustiveness of all 11 type switches, constructor/field/accessor order, Equal compare tables (boolean path enumeration), FindAll pre-order and threading, ReplaceAll/EffectApply rebuild homomorphism (the replacement function sees the rebuilt node), Exprs child sets",
          "the structural utilities visit/compare/rebuild exactly the children and attributes of every node type in the right order; follows the property closely because these functions are structural themselves",
          "trusts go/ssa", "§4 C28"),
- "C30": ("user-input taint for constant slicing, prefix/base/strip agreement table of parseAddr, guard/dataflow rules of readValue",
-         "no unguarded slicing; each prefix literal selects its base and strips its own length under a length check admitting longer inputs; empty/underscore rejected before SetString; negative via Sub(0,|n|) folded. The numeric value of strconv/big parsing is trusted",
+ "C30": ("concrete CFG walk with literal strings: parseAddr on 19 sample arguments, readValue on 11 typed lines (slicing/indexing/len/comparison/ranging evaluated on the literals, out-of-range access recorded as a crash); dataflow rules for sign and byte order",
+         "no sample argument crashes; every notation reaches ParseUint with the right base and exactly the digits behind its prefix (a lone 0 is decimal); empty lines and underscores are answered with an error before SetString, every other line reaches SetString(line, 0) unchanged; negative via Sub(0,|n|) folded. The numeric value of strconv/big parsing is trusted",
          "trusts go/ssa, strconv and math/big", "§4 C30"),
- "C31": ("validate-before-assign rule and decision table of Cursor.Set/checkOffset, line-index taint of the navigation commands, concrete CFG walk of the find search for 1-5 lines x every cursor x every first match, error propagation",
+ "C31": ("concrete interprocedural walk of Cursor.Set over the 13 orderings of (v, 0, max) (stores v and returns nil exactly for 0 <= v < max), line-index taint of the navigation commands, concrete CFG walk of the find search for 1-5 lines x every cursor x every first match, error propagation",
          "a failed command leaves the cursor unchanged, accepted offsets are exactly 0 <= v < max, navigation reaches the listing only with validated indices, find probes exactly the lines after the cursor in cyclic order, never the cursor line, and lands on the first match",
          "trusts go/ssa", "§4 C31"),
  "C32": ("compaction idiom on memoryLines, line-index taint in the memory view, concrete CFG walk of block2Lines for every block within [0,50)",
